@@ -100,9 +100,12 @@ namespace
         }
         void unlock()
         {
+            if (owner.load() != std::this_thread::get_id())
+                bad_unlock = true; // unlocked by a thread that does not hold it (e.g. unlocked twice)
             owner = std::thread::id();
             real.unlock();
         }
+        std::atomic<bool> bad_unlock{false};
         bool held_by_me() const
         {
             return owner.load() == std::this_thread::get_id();
@@ -270,6 +273,8 @@ namespace
             VMutex* m = g_expected.load();
             if (m && m->owner.load() != std::thread::id())
                 (*F)("lock-not-released", std::string("the mutex is still held after ") + where);
+            if (m && m->bad_unlock.load())
+                (*F)("unlock-not-held", std::string("the mutex was unlocked while the unlocking thread did not hold it (") + where + ")");
         }
 
         template <class S>
@@ -334,6 +339,23 @@ namespace
             }
             case M_lock_proxy_moved:
             {
+                if (op.c % 2)
+                {
+                    // the moved-from proxy dies first while the moved-to proxy is still in use
+                    using proxy_t = decltype(st.lock());
+                    auto* l  = new proxy_t(st.lock());
+                    auto* l2 = new proxy_t(std::move(*l));
+                    delete l;
+                    VMutex* m = g_expected.load();
+                    if (m && !m->held_by_me())
+                        (*F)("proxy-lost-lock", "destroying the moved-from lock() proxy released the mutex although the "
+                                                "moved-to proxy is still alive");
+                    void* p = (*l2)->allocate_node(size, 8);
+                    (*l2)->deallocate_node(p, size, 8);
+                    delete l2;
+                    check_released("the moved-to lock() proxy died");
+                    break;
+                }
                 {
                     auto l = st.lock();
                     {
